@@ -8,6 +8,7 @@ import (
 	"os"
 	"path/filepath"
 	"runtime"
+	"sync/atomic"
 	"sort"
 	"strings"
 	"time"
@@ -27,7 +28,7 @@ func init() {
 	core.Register(&core.Prop{
 		ID:    "C08",
 		Level: "exploration",
-		Rule: "Every third case runs in merge mode with 1200-entry directories in the old destination where the source has files; one failing session per case (burst of requests, then a duplicate) is judged by the overlap detector and by 'no stream call of Send in flight at, or started after, its return'; a fault-free transfer that fails is a violation. each case fixes a source of 100-400 multi-chunk files (plus link groups, directories, small files) and a prior destination (mutated copy) and runs the real Send+Receive under S schedules drawn from stream capacity {0,1,2,8,64} x seeded per-operation delays/yields inside stream calls (the endpoint dwells inside SendMsg/RecvMsg so a missing lock becomes an observable overlap), source reads, hasher and notify callbacks x GOMAXPROCS {1,2,4,16}; the binary is built with the Go race detector (halt_on_error). Outcomes (dest snapshot, REQ set, notification set with digests) of all schedules of a case must be equal up to the hard-link exception; the overlap detector of the harness stream must stay silent. After the schedule cases the quick workloads of other transfer checks (quick: C04 fault plans, C19 metadata-only; thorough: also C01 C02 C05 C06 C07 C11 C13 C16 C17) are repeated inside the race-instrumented binary; there only race reports count (observed race_sweep_cases_<id>). " +
+		Rule: "The sender's progress callback keeps unsynchronised state, dwells, and counts overlapping entries and totals that go backwards (calls into the caller's code are serialised like the stream calls). Every third case runs in merge mode with 1200-entry directories in the old destination where the source has files; one failing session per case (burst of requests, then a duplicate) is judged by the overlap detector and by 'no stream call of Send in flight at, or started after, its return'; a fault-free transfer that fails is a violation. each case fixes a source of 100-400 multi-chunk files (plus link groups, directories, small files) and a prior destination (mutated copy) and runs the real Send+Receive under S schedules drawn from stream capacity {0,1,2,8,64} x seeded per-operation delays/yields inside stream calls (the endpoint dwells inside SendMsg/RecvMsg so a missing lock becomes an observable overlap), source reads, hasher and notify callbacks x GOMAXPROCS {1,2,4,16}; the binary is built with the Go race detector (halt_on_error). Outcomes (dest snapshot, REQ set, notification set with digests) of all schedules of a case must be equal up to the hard-link exception; the overlap detector of the harness stream must stay silent. After the schedule cases the quick workloads of other transfer checks (quick: C04 fault plans, C19 metadata-only; thorough: also C01 C02 C05 C06 C07 C11 C13 C16 C17) are repeated inside the race-instrumented binary; there only race reports count (observed race_sweep_cases_<id>). " +
 			"non-trivial = schedule run with >=50 content requests; distinct by interleaving fingerprint (hash of the merged order of (endpoint, op, packet type, id) events)",
 		Assumptions: []string{"root", "schedules the Go runtime does not produce in the run are not covered; the race detector only sees executed paths", "built with -race: a race report terminates the child process and is reported with its log"},
 		Cases: func(tier string) int {
@@ -148,7 +149,30 @@ func c08Run(c *core.Ctx) *core.Result {
 	delayCb := []int{0, 30}[(sched/6)%2]
 	desc := fmt.Sprintf("case %d schedule %d: cap=%d GOMAXPROCS=%d delays(stream=%dus read=%dus callbacks=%dus)", caseNo, sched, capn, procs, delayStream, delayRead, delayCb)
 	r.Sample = map[string]any{"schedule": desc, "files": len(src.Entries)}
+	// the sender's progress callback is the caller's code: it keeps plain
+	// state (the race detector watches it), counts entries that overlap and
+	// totals that go backwards, and dwells like the other callbacks
+	var progOverlap, progBackwards atomic.Int64
 	run := func(schedNo int, capn, procs, dStream, dRead, dCb int, rr *core.Rand) (*c08Outcome, *syncRes, string) {
+		var progIn atomic.Int64
+		progCalls, progLast := 0, 0
+		g5 := rr.Fork()
+		progress := func(n int, last bool) {
+			if progIn.Add(1) > 1 {
+				progOverlap.Add(1)
+			}
+			progCalls++
+			if n < progLast {
+				progBackwards.Add(1)
+			}
+			progLast = n
+			if dCb > 0 {
+				jitter(g5, dCb)
+			} else if progCalls%3 == 0 {
+				runtime.Gosched()
+			}
+			progIn.Add(-1)
+		}
 		dest := filepath.Join(c.Dir, fmt.Sprintf("dest%d", schedNo))
 		os.RemoveAll(dest)
 		os.Mkdir(dest, 0755)
@@ -201,7 +225,7 @@ func c08Run(c *core.Ctx) *core.Result {
 				}
 			}
 		}
-		res := runSync(syncOpt{Cfg: cfg, Src: sf, Dest: dest, Timeout: 240 * 1e9,
+		res := runSync(syncOpt{Cfg: cfg, Src: sf, Dest: dest, Timeout: 240 * 1e9, Progress: progress,
 			// (every third case in merge mode: each entry is an addition that
 			// is built next to what the destination holds and renamed over it)
 			Recv: fsutil.ReceiveOpt{NotifyHashed: nrec.fn, ContentHasher: hs.fn, Merge: caseNo%3 == 2}})
@@ -271,7 +295,12 @@ func c08Run(c *core.Ctx) *core.Result {
 		r.Inconclusive = desc + ": " + problem
 		return r
 	}
+	if progOverlap.Load() > 0 || progBackwards.Load() > 0 {
+		r.ViolateD("progress-callback-not-serialised", map[string]any{"schedule": desc}, "%s: the sender's progress callback was entered %d times while another call of it was running, and saw its total go backwards %d times", desc, progOverlap.Load(), progBackwards.Load())
+		return r
+	}
 	r.Count("schedule_runs", 2)
+	r.Count("schedule_runs_with_a_monitored_progress_callback", 2)
 	if caseNo%3 == 2 {
 		r.Count("schedule_runs_in_merge_mode", 2)
 	}
